@@ -187,6 +187,19 @@ Proof.
     + destruct (K true) as [K'|K']; [|congruence]. eapply mutex_on_frames; [| |exact K']; intros r'; cnt.
     + destruct (K false) as [K'|K']; [|congruence]. eapply mutex_on_frames; [| |exact K']; intros r'; cnt.
   - (* FCleanStart *)
+    destruct (Nat.eqb arg 1).
+    { (* the run gives up: its context was cancelled while it held r.mu; as the deferred unlock *)
+      destruct (r_cancel (getr s r)); [|discriminate]. inversion H; subst; clear H. simpl.
+      intros r' Hlt. rewrite length_setl in Hlt. destruct (Inv r' Hlt) as [I1 I2]. simpl in I1, I2.
+      rewrite nth_setl. destruct (Nat.eqb r r' && Nat.ltb r (length (s_rrs s))) eqn:E.
+      + apply andb_true_iff in E. destruct E as [E _]. apply Nat.eqb_eq in E. subst r'.
+        rewrite Nat.eqb_refl in I1, I2. simpl.
+        assert (B : b2n (r_mu (nth r (s_rrs s) drr)) <= 1) by (destruct (r_mu (nth r (s_rrs s) drr)); simpl; lia).
+        rewrite !count_app. simpl. rewrite !count_app in I1, I2. split; [lia|]. intros St. unfold getr in St. specialize (I2 St). lia.
+      + assert (Nq : Nat.eqb r' r = false).
+        { destruct (Nat.eqb r' r) eqn:Q; [|reflexivity]. apply Nat.eqb_eq in Q. subst r'.
+          rewrite Nat.eqb_refl in E. simpl in E. apply Nat.ltb_ge in E. lia. }
+        rewrite Nq in I1, I2. rewrite !count_app. simpl. rewrite !count_app in I1, I2. split; [lia |]. intros St. specialize (I2 St). lia. }
     destruct (r_clock (getr s r)); [discriminate|]. inversion H; subst; clear H. simpl. rr_leaf Inv.
   - (* FClean *)
     destruct ks as [|k ks'].
